@@ -10,7 +10,7 @@ txt = ("### 0.6 Seeded changes (sub-agents, one property text and a scratch work
        "Each change compiles, keeps the 39 baseline tests passing, and makes its own demonstration fail; confirmed in a scratch worktree by "
        "`tools/seedconfirm.py`, stored in `/verif/seeded/<id>/` (patch.diff, demo.py, meta.json with the check results), then applied to /repo, "
        "checked with the quick tier at seed 1, and reverted (the third round ran the same checks from rsync copies of /verif against scratch worktrees, "
-       "`SEED_REPO`/`SEED_VERIF`, so that /repo stayed free; every change was finally re-run with `tools/seedrecheck.py`).  Three rounds (from the second on the agents were told what had "
+       "`SEED_REPO`/`SEED_VERIF`, so that /repo stayed free; every change was finally re-run with `tools/seedrecheck.py`).  Four rounds (from the second on the agents were told what had "
        f"been tried and asked for other mechanisms; the third asked for two changes per property that need something specific to manifest): {n} changes, all reported by the final "
        "checks.  Misses of earlier versions of the checks, and what they led to: "
        "C06-2 (the failing magic is now found by a checker that still loads when the table lemma breaks; stale .vo files are removed), "
@@ -31,7 +31,12 @@ txt = ("### 0.6 Seeded changes (sub-agents, one property text and a scratch work
        "treats every use of functools.lru_cache / cache / cached_property as a mutation site of its own and follows local aliases of module-level objects, and its histories gained "
        "finer operations (the std functions per code object, co_lines() twice, whole-table stack effects, sysinfo2magic, pretty_flags) and operations related to the probe, so that "
        "concrete failing histories are found for C02-6, C04-5, C15-5, C18-4.  C03-5, C12-5, C12-6 are decoder changes reported by the decoder's own property (C01/C07, C02/C04, C03).  "
-       "C13-5 was rebased onto the three C13 fixes.  C12-1 is a label-finder change: it is reported by C04; C12 takes jump targets from that same label finder.  "
+       "C13-5 was rebased onto the three C13 fixes.  Fourth round (caches were ruled out; 10 of 40 missed by the check of their own property at first): C08-7/C08-8 (sysinfo2magic is now "
+       "EXECUTED for every final and release-candidate name of the tables, and get_opcode under the file names that switch PyPy detection), C10-8 (PyPy 3.2 files enter C01's corpus tie "
+       "through the pypy32_fix adapter, plus a synthetic PyPy 3.2 code object with bytes constants), C13-8 (PyPy-magic twins 256/336/384 of files compiled by 3.8-3.10), C16-7 (native code "
+       "objects with one field varied at a time: co_nlocals, co_stacksize, flag bits, first line, non-ASCII name), C07-5 (a 2100-line gap source: three-chunk varints), C18-5/C18-6 (the "
+       "scanner flags calls of interpreter-global setters such as sys.set_int_max_str_digits and one-shot iterators bound at module level), C05-8 (first_line shift of line 0: reported by C20), "
+       "C12-7/C12-8 and C03-7/C03-8 (table and decoder changes reported by C09/C04, C05, C02, C10/C01).  C12-1 is a label-finder change: it is reported by C04; C12 takes jump targets from that same label finder.  "
        "'(no-failing-input-found)' marks reports where the broken obligation is named but no concrete input was searched out.\n\n"
        "| id | change | reported by |\n|---|---|---|\n" + "\n".join(rows) + "\n\n")
 p = '/verif/DESIGN.md'
